@@ -49,6 +49,42 @@ pub fn zz_unsafe_named_len(v: &mut Vec<u8>) -> u8 {
     if n > 0 { v.clear(); return v[n - 1]; }
     0
 }
+pub fn zz_unsafe_loop_pop(v: &mut Vec<u8>) -> u8 {
+    let mut s = 0u8;
+    for i in 0..v.len() { v.pop(); s = s.wrapping_add(v[i]); }
+    s
+}
+pub fn zz_safe_loop(v: &Vec<u8>) -> u8 {
+    let mut s = 0u8;
+    for i in 0..v.len() { s = s.wrapping_add(v[i]); }
+    s
+}
+pub fn zz_unsafe_enumerate_other(v: &Vec<u8>, w: &mut Vec<u8>) {
+    if w.len() != v.len() { return; }
+    for (i, x) in v.iter().enumerate() { w.pop(); w[i] = *x; }
+}
+pub fn zz_unsafe_refcell(c: &std::cell::RefCell<Vec<u8>>) -> u8 {
+    let n = c.borrow().len();
+    if n > 0 { c.borrow_mut().pop(); return c.borrow()[n - 1]; }
+    0
+}
+pub fn zz_unsafe_refcell_guard(c: &std::cell::RefCell<Vec<u8>>, i: usize) -> u8 {
+    if i < c.borrow().len() { c.borrow_mut().clear(); return c.borrow()[i]; }
+    0
+}
+fn zz_expect_one(args: &Vec<u8>) -> Result<(), String> {
+    if args.len() != 1 { return Err(String::new()); }
+    Ok(())
+}
+pub fn zz_unsafe_after_helper(args: &mut Vec<u8>) -> Result<u8, String> {
+    zz_expect_one(args)?;
+    args.pop();
+    Ok(args[0])
+}
+pub fn zz_safe_after_helper(args: &Vec<u8>) -> Result<u8, String> {
+    zz_expect_one(args)?;
+    Ok(args[0])
+}
 pub fn zz_safe_guard(v: &Vec<u8>, i: usize) -> u8 {
     if i < v.len() { return v[i]; }
     0
